@@ -312,8 +312,8 @@ Section Footprints.
   Proof.
     intros H. cbn in H. destruct H as [H3 [H4 [H5 _]]].
     unfold send_write. pres_step; [apply encode_pres; ins_auto|].
-    pres_step; [pres_tac|]. pres_step; [pres_tac|]. pres_step; [pres_tac|].
-    destruct (skip_journal m); [apply pres_ret|]. apply persist_out_pres. ins_auto.
+    pres_step; [destruct (skip_journal m); [apply pres_ret|apply persist_out_pres; ins_auto]|].
+    pres_tac.
   Qed.
 
   Lemma send_tail_pres m w0 : ins_all f [FNout; FJsout; FJout] -> pres f (send_tail c m w0).
@@ -547,8 +547,8 @@ Section Events.
     apply allev_bind_post with (Q := fun sm => mtype (snd sm) = mtype m);
       [apply encode_allev | intros; eapply encode_mtype; eauto |].
     intros [n wm] Hm. cbn [snd fst] in *.
+    allev_step; [destruct (skip_journal m); [apply allev_ret|apply persist_out_allev]|].
     allev_step; [allev_tac|]. allev_step; [allev_tac|].
-    allev_step; [|destruct (skip_journal m); [apply allev_ret|apply persist_out_allev]].
     apply allev_emit. destruct wm as [t tags]. cbn in Hm. subst t. apply H2.
   Qed.
 
